@@ -326,7 +326,10 @@ def c02(ctx):
     if not ctx.gv("random-txn-histories", "Trace_Table", ["table", "--mode", "hist", "--mix", "txn", "--seed", str(seed()), "--n", str(n), "--ops", str(ops)]):
         return
     n, ops = (6, 800) if q else (40, 3000)
-    ctx.gv("concurrent-readers", "Trace_Table", ["table", "--mode", "conc", "--seed", str(seed()), "--n", str(n), "--ops", str(ops)], racy=True)
+    if not ctx.gv("concurrent-readers", "Trace_Table", ["table", "--mode", "conc", "--seed", str(seed()), "--n", str(n), "--ops", str(ops)], racy=True):
+        return
+    # directed witness of the known finding DelPrevSizeCut (a range delete with prev_kv over > 4 MiB reports a part only)
+    ctx.gv("big-value-deletes", "Trace_Table", ["table", "--mode", "bigscan", "--mix", "witness", "--seed", str(seed() + 1), "--n", str(1 if q else 6)])
 
 
 @check("C03")
@@ -350,7 +353,10 @@ def c03(ctx):
     pkgs = ["./storage/table/", "./storage/", "./regattaserver/", "./replication/"]
     if not q:
         pkgs += ["./storage/table/fsm/", "./replication/backup/"]
-    ctx.repo_test_traces("repository-test-traces", pkgs)
+    if not ctx.repo_test_traces("repository-test-traces", pkgs):
+        return
+    # directed witness of the known finding DelPrevSizeCut (identical on every replica, but not what the log says)
+    ctx.gv("big-value-deletes", "Trace_Table", ["table", "--mode", "bigscan", "--mix", "witness", "--seed", str(seed() + 2), "--n", str(1 if q else 6)])
 
 
 @check("C09")
